@@ -7,6 +7,7 @@ import (
 	"fmt"
 	"os"
 	"os/exec"
+	"os/signal"
 	"path/filepath"
 	"runtime"
 	"runtime/debug"
@@ -285,6 +286,8 @@ func runChild(self string, p *Property, tier Tier, seed int64, batch, nb int, ti
 	if err := cmd.Start(); err != nil {
 		return nil, nil, "child-start:" + err.Error()
 	}
+	trackChild(cmd.Process.Pid, true)
+	defer trackChild(cmd.Process.Pid, false)
 	done := make(chan error, 1)
 	go func() { done <- cmd.Wait() }()
 	var werr error
@@ -322,6 +325,38 @@ func runChild(self string, p *Property, tier Tier, seed int64, batch, nb int, ti
 		w.Case = nil
 	}
 	return nil, w, ""
+}
+
+// Children run in process groups of their own (so that a watchdog can kill a whole batch). If
+// the parent is told to stop (SIGTERM from `timeout`, SIGINT, SIGHUP) it takes them along instead
+// of leaving them running as orphans.
+var (
+	childMu   sync.Mutex
+	childPids = map[int]bool{}
+	childOnce sync.Once
+)
+
+func trackChild(pid int, add bool) {
+	childOnce.Do(func() {
+		ch := make(chan os.Signal, 1)
+		signal.Notify(ch, syscall.SIGTERM, syscall.SIGINT, syscall.SIGHUP)
+		go func() {
+			<-ch
+			childMu.Lock()
+			for p := range childPids {
+				_ = syscall.Kill(-p, syscall.SIGKILL)
+			}
+			childMu.Unlock()
+			os.Exit(2)
+		}()
+	})
+	childMu.Lock()
+	if add {
+		childPids[pid] = true
+	} else {
+		delete(childPids, pid)
+	}
+	childMu.Unlock()
 }
 
 func fatalClass(stderr string) string {
